@@ -347,6 +347,31 @@ func TestC02Pinned(t *testing.T) {
 		pinned(t, "C02", "C02/roundtrip", c02Case{Opts: wopts{BS: 4, Conc: 1, Legacy: true}, Data: gen.Data{Segs: []gen.Seg{{K: "count", N: 8 << 20, S: 3}, {K: "rand", N: 8<<20 - k, S: 42}, {K: "run", N: k, P: 0}}},
 			Del: delivery{Mode: "readfrom"}, R: rcfg{Conc: 1, Sizes: []int{1 << 20}}}, runC02)
 	}
+	// a current-format frame with the shape of the legacy finding: Write(A), Flush, Write(B) where the compressed size of B's block
+	// equals len(A) - the size word of the second block is the number of bytes decoded so far; and inputs whose first stored
+	// block (or whole content) has XXH32 0 (a value some code takes for "no checksum")
+	if a := sizeWordCoincidence(); a > 0 {
+		for _, o := range []wopts{{BS: 4, Conc: 1}, {BS: 4, Conc: 1, BlockSum: true}, {BS: 4, Conc: 2, ContentSum: true}} {
+			for _, rc := range []rcfg{{Conc: 1, Sizes: []int{4096}}, {Conc: 1, WriteTo: true}, {Conc: 4, Sizes: []int{65536}}} {
+				pinned(t, "C02", "C02/roundtrip", c02Case{Opts: o, Data: gen.Data{Segs: []gen.Seg{{K: "rand", N: a, S: 71}, {K: "run", N: 1000, P: 'a'}, {K: "rand", N: 300, S: 72}}},
+					Del: delivery{Mode: "write", Chunks: []int{a, 1000}, Flush: []bool{true, true}}, R: rc}, runC02)
+			}
+		}
+	}
+	for _, n := range []int{4, 20, 65536 - 12, 65536 + 65536 - 12} {
+		for _, conc := range []int{1, 2} {
+			segs := []gen.Seg{{K: "rand", N: n, S: uint64(n)}}
+			if n > 65536 {
+				segs = []gen.Seg{{K: "rand", N: 65536 - 12, S: 1}, {K: "rand", N: n - 65536 + 12, S: 2}}
+			}
+			d := gen.Data{Segs: segs}
+			raw := d.Build()
+			if zeroPatch(raw, "block", 65536) {
+				pinned(t, "C02", "C02/roundtrip", c02Case{Opts: wopts{BS: 4, BlockSum: true, ContentSum: true, Conc: conc}, Data: gen.Data{Segs: []gen.Seg{{K: "raw", N: len(raw), Raw: raw}}},
+					Del: delivery{Mode: "write"}, R: rcfg{Conc: conc, Sizes: []int{65536}}}, runC02)
+			}
+		}
+	}
 	// 4 MiB blocks
 	c := c02Case{Opts: wopts{BS: 7, ContentSum: true, Conc: 2}, Data: gen.Data{Segs: []gen.Seg{{K: "text", N: 4<<20 + 1, S: 5, P: 4}}},
 		Del: delivery{Mode: "write", Chunks: []int{4 << 20}, Flush: []bool{false}}, R: rcfg{Conc: 2, WriteTo: true}}
@@ -381,6 +406,18 @@ func tuneLegacyBlockTo8MiB() int {
 		}
 	}
 	return -1
+}
+
+// sizeWordCoincidence returns the compressed size of a block of 1000 'a' bytes (the fast compressor): an input that starts with
+// that many incompressible bytes, is flushed, and goes on with the 1000 'a's has a second block whose size word equals the
+// number of bytes decoded before it.
+func sizeWordCoincidence() int {
+	dst := make([]byte, lz4.CompressBlockBound(1000))
+	n, err := lz4.CompressBlock(bytes.Repeat([]byte{'a'}, 1000), dst, nil)
+	if err != nil || n <= 0 {
+		return 0
+	}
+	return n
 }
 
 func TestC02(t *testing.T) {
